@@ -292,6 +292,8 @@ class Normalizer:
         self.inline = inline
         self.env = dict(extra_env or {})
         self.no_inline = set(no_inline)
+        self._stale: set = set()
+        self._fresh: set = set()
         self.int_atoms = int_atoms or (lambda a: a.startswith('len('))
         self._stack: List[str] = []
         self._params = set()
@@ -309,7 +311,22 @@ class Normalizer:
             return None
         if name in self._stack:
             return None
-        return astx.unique_def(self.fn, name)
+        if name in self._stale:
+            return None
+        v = astx.unique_def(self.fn, name)
+        if v is not None and name not in self._fresh:
+            # read a single-assignment local through only if nothing it is computed from is re-bound after its
+            # assignment (a temporary taken before an update is NOT the updated value)
+            ds = astx.defs_of(self.fn, name)
+            line = getattr(ds[0][0], "lineno", 0) if ds else 0
+            reads = astx.free_names(v) - {name}
+            last_use = max((getattr(x, "lineno", 0) for x in astx.walk_own(self.fn) if isinstance(x, ast.Name) and x.id == name and isinstance(x.ctx, ast.Load)), default=line)
+            later = any(nm in reads and line < ln <= last_use for nm, ln in astx.own_stores(self.fn))
+            if later:
+                self._stale.add(name)
+                return None
+            self._fresh.add(name)
+        return v
 
     # -- canonical key of an arbitrary expression (atoms)
     def key(self, e: ast.AST) -> str:
@@ -562,8 +579,20 @@ class Normalizer:
             if isinstance(a, (ast.GeneratorExp, ast.ListComp)):
                 if e.func.id == "all":
                     inv = type(a)(elt=ast.UnaryOp(op=ast.Not(), operand=a.elt), generators=a.generators)
-                    return neg(("atom", "any" + self._comp_key(_as_gen(inv))))
-                return ("atom", "any" + self._comp_key(_as_gen(a)))
+                    return neg(("atom", "any" + self._comp_key(_as_gen(_values_view(inv)))))
+                return ("atom", "any" + self._comp_key(_as_gen(_values_view(a))))
+        # a filtered list is non-empty iff some item passes the filter: truthy([x for x in XS if C]) == any(C for x in XS)
+        lc = e
+        if isinstance(lc, ast.Call) and astx.u(lc.func) == "len" and len(lc.args) == 1:
+            lc = lc.args[0]
+        if isinstance(lc, ast.Name):
+            v = self._lookup(lc.id)
+            lc = v if isinstance(v, (ast.ListComp, ast.SetComp)) else lc
+        if isinstance(lc, (ast.ListComp, ast.SetComp, ast.GeneratorExp)) and len(lc.generators) == 1 and lc.generators[0].ifs and not isinstance(e, ast.GeneratorExp):
+            g = lc.generators[0]
+            cond = g.ifs[0] if len(g.ifs) == 1 else ast.BoolOp(op=ast.And(), values=list(g.ifs))
+            gen = ast.GeneratorExp(elt=cond, generators=[ast.comprehension(target=g.target, iter=g.iter, ifs=[], is_async=0)])
+            return ("atom", "any" + self._comp_key(_as_gen(_values_view(gen))))
         # truthiness; len(x) truthiness == truthiness of x for sized containers
         if isinstance(e, ast.Call) and astx.u(e.func) == "len" and len(e.args) == 1:
             return ("atom", f"truthy({self.key(e.args[0])})")
@@ -798,6 +827,24 @@ def bool_key(g) -> str:
     if g[0] == "not":
         return f"not {bool_key(g[1])}"
     return "(" + f" {g[0]} ".join(sorted(bool_key(x) for x in g[1])) + ")"
+
+
+def _values_view(gen):
+    """`... for k, v in D.items()` in which k is not used is `... for v in D.values()`."""
+    import copy
+    if len(gen.generators) != 1:
+        return gen
+    g = gen.generators[0]
+    if isinstance(g.target, ast.Tuple) and len(g.target.elts) == 2 and all(isinstance(x, ast.Name) for x in g.target.elts) and isinstance(g.iter, ast.Call) \
+            and isinstance(g.iter.func, ast.Attribute) and g.iter.func.attr == "items" and not g.iter.args:
+        k = g.target.elts[0].id
+        used = any(isinstance(n, ast.Name) and n.id == k for part in [gen.elt] + list(g.ifs) for n in ast.walk(part))
+        if not used:
+            ng = copy.deepcopy(gen)
+            ng.generators[0].target = ast.Name(id=g.target.elts[1].id, ctx=ast.Store())
+            ng.generators[0].iter = ast.Call(func=ast.Attribute(value=copy.deepcopy(g.iter.func.value), attr="values", ctx=ast.Load()), args=[], keywords=[])
+            return ng
+    return gen
 
 
 def literals(g) -> set:
